@@ -6,11 +6,15 @@ package main
 // hand out (dumped at that moment), goes on iterating / looking up / copying / encoding, and re-dumps
 // everything it holds in between and at the end.  Observation: "stable", or "changed:<how many>@<step>".
 //
-// script: typed:<engine>:<shape>:<n>:<plan>     engine = bindinf | binddecl | binddeclrepr | gendemo
-//   shape  = strs ints recs map nested holder (gendemo: msgmap)
+// script: typed:<engine>:<shape>:<n>:<plan>     engine = bindinf | binddecl | binddeclrepr | gendemo | basic
+//   shape  = strs ints recs map nested holder (gendemo: msgmap; basic: map list nested anymap)
+//   (engine basic = node/basicnode through this same hold-everything route: the nodes its iterators
+//   yield — keys and values — are retained across further Next() calls and everything else the plan does)
 //   plan   = letters: I iterate holding every child (checking every 16 steps)  L look every child up
 //            J two iterators interleaved  C datamodel.Copy into a basicnode builder  E dag-cbor encode
 //            R re-read the first child, run a fresh iterator to its end, re-read
+//            K collect the key nodes of a map from one iterator, then look every retained key up (LookupByNode)
+//              and compare with the lookup by the string it had when it was handed out
 
 import (
 	"bytes"
@@ -125,6 +129,57 @@ func typedNode(engine, shape string, n int) datamodel.Node {
 			return tn.Representation()
 		}
 		return tn
+	case "basic":
+		proto := basicnode.Prototype.Map
+		if shape == "anymap" {
+			return basicAny(n)
+		}
+		switch shape {
+		case "list":
+			nb := basicnode.Prototype.List.NewBuilder()
+			la, _ := nb.BeginList(int64(n))
+			for i := 0; i < n; i++ {
+				la.AssembleValue().AssignString("s" + strconv.Itoa(i))
+			}
+			la.Finish()
+			return nb.Build()
+		case "nested":
+			nb := proto.NewBuilder()
+			ma, _ := nb.BeginMap(int64(n))
+			for i := 0; i < n; i++ {
+				va, _ := ma.AssembleEntry("k" + strconv.Itoa(i))
+				if i%2 == 0 {
+					ea, _ := va.BeginMap(2)
+					fa, _ := ea.AssembleEntry("a" + strconv.Itoa(i))
+					fa.AssignInt(int64(i))
+					fa, _ = ea.AssembleEntry("b" + strconv.Itoa(i))
+					fa.AssignString("v" + strconv.Itoa(i))
+					ea.Finish()
+				} else {
+					ea, _ := va.BeginList(2)
+					ea.AssembleValue().AssignInt(int64(i))
+					ea.AssembleValue().AssignString("w" + strconv.Itoa(i))
+					ea.Finish()
+				}
+			}
+			ma.Finish()
+			return nb.Build()
+		default:
+			nb := proto.NewBuilder()
+			ma, _ := nb.BeginMap(int64(n))
+			for i := 0; i < n; i++ {
+				// key assembler route for every other entry
+				if i%2 == 0 {
+					va, _ := ma.AssembleEntry("k" + strconv.Itoa(i))
+					va.AssignInt(int64(i))
+				} else {
+					ma.AssembleKey().AssignString("k" + strconv.Itoa(i))
+					ma.AssembleValue().AssignInt(int64(i))
+				}
+			}
+			ma.Finish()
+			return nb.Build()
+		}
 	case "gendemo":
 		nb := gendemo.Type.Map__String__Msg3.NewBuilder()
 		ma, _ := nb.BeginMap(int64(n))
@@ -141,6 +196,29 @@ func typedNode(engine, shape string, n int) datamodel.Node {
 		return nb.Build()
 	}
 	panic("engine " + engine)
+}
+
+// a map built through Prototype.Any (decoded from dag-cbor), maps nested in it
+func basicAny(n int) datamodel.Node {
+	src := basicnode.Prototype.Map.NewBuilder()
+	ma, _ := src.BeginMap(int64(n))
+	for i := 0; i < n; i++ {
+		va, _ := ma.AssembleEntry("k" + strconv.Itoa(i))
+		ea, _ := va.BeginMap(1)
+		fa, _ := ea.AssembleEntry("in" + strconv.Itoa(i))
+		fa.AssignInt(int64(i))
+		ea.Finish()
+	}
+	ma.Finish()
+	var buf bytes.Buffer
+	if err := dagcbor.Encode(src.Build(), &buf); err != nil {
+		panic(err)
+	}
+	nb := basicnode.Prototype.Any.NewBuilder()
+	if err := dagcbor.Decode(nb, &buf); err != nil {
+		panic(err)
+	}
+	return nb.Build()
 }
 
 type heldNode struct {
@@ -287,6 +365,35 @@ func runTyped(script string) (obs string) {
 				var buf bytes.Buffer
 				dagcbor.Encode(c, &buf)
 				t.check(step)
+			case 'K':
+				if c.Kind() == datamodel.Kind_Map {
+					var ks []datamodel.Node
+					var strs []string
+					for it := c.MapIterator(); it != nil && !it.Done(); {
+						k, _, err := it.Next()
+						if err != nil {
+							break
+						}
+						str, _ := k.AsString()
+						ks, strs = append(ks, k), append(strs, str)
+						t.hold(k)
+					}
+					bad := 0
+					for i, k := range ks {
+						v1, e1 := c.LookupByNode(k)
+						v2, e2 := c.LookupByString(strs[i])
+						if (e1 == nil) != (e2 == nil) || (e1 == nil && lib.Dump(v1) != lib.Dump(v2)) {
+							bad++
+						}
+						if e1 == nil {
+							t.hold(v1)
+						}
+					}
+					if bad > 0 && t.changed == 0 {
+						t.changed, t.where = bad, step
+					}
+				}
+				t.check(step)
 			case 'R':
 				if c.Kind() == datamodel.Kind_List && c.Length() > 0 {
 					it := c.ListIterator()
@@ -310,14 +417,17 @@ func runTyped(script string) (obs string) {
 var typedCorpus = []string{
 	"typed:binddecl:strs:40:RIL", "typed:binddecl:recs:70:ICI", "typed:bindinf:strs:33:IJ", "typed:binddeclrepr:recs:65:CIE",
 	"typed:gendemo:msgmap:50:ILC", "typed:binddecl:map:100:IL", "typed:bindinf:holder:34:IRC", "typed:binddecl:nested:36:IJL",
+	"typed:basic:map:5:IKC", "typed:basic:nested:40:KIL", "typed:basic:anymap:17:IK", "typed:basic:list:33:IJR", "typed:basic:map:2:K",
+	"typed:binddecl:map:9:KI", "typed:gendemo:msgmap:7:KIE",
 }
 
-var typedEngines = []string{"bindinf", "binddecl", "binddeclrepr", "gendemo"}
+var typedEngines = []string{"bindinf", "binddecl", "binddeclrepr", "gendemo", "basic", "basic"}
 var typedShapes = map[string][]string{
 	"bindinf":      {"strs", "ints", "recs", "nested", "holder"},
 	"binddecl":     {"strs", "ints", "recs", "map", "nested", "holder"},
 	"binddeclrepr": {"strs", "ints", "recs", "map", "nested", "holder"},
 	"gendemo":      {"msgmap"},
+	"basic":        {"map", "list", "nested", "anymap"},
 }
 
 func genTyped(r *lib.Rng) string {
@@ -329,7 +439,7 @@ func genTyped(r *lib.Rng) string {
 	}
 	plan := ""
 	for i, k := 0, 2+r.Intn(4); i < k; i++ {
-		plan += string("IILJCER"[r.Intn(7)])
+		plan += string("IILJCERK"[r.Intn(8)])
 	}
 	return fmt.Sprintf("typed:%s:%s:%d:%s", e, sh, n, plan)
 }
